@@ -15,6 +15,7 @@ EXPLANATION = (
     "[ENC-PRODUCER] inventory of what reaches each mask: range-checked (encode_number, encode_float) versus unchecked producers. "
     "ENC-RANGE / SIGN-AGREE / ENC-NA are read off the encode_number residual evaluated as an exact piecewise-affine function of round(value/resolution) over all integers (piece.py); ENC-MISSING and the encoder lookup are decided by interpreting get_field_by_id and _call_encode_function. UNDECIDED: the numeric 'within half a resolution step' for accepted values."
     ' ENC-MISSING is decided on histories as well: the same message asked again after one field was replaced, after a new field list was assigned, after an append (a lookup cache that is not refreshed fails). SENT-AGREE / SIGN-AGREE (C02) are included: an absent value must be written as the pattern the decoder reads as absent.'
+    ' Ninth round: where the encode_number residual is decided on points, module-level constant tables of utils that it reads (bound once to a constant expression, never written or mutated) are resolved, so a scale looked up in such a table is judged at every database (BitLength, Signed, Resolution).'
     ' Fifth round: [ENC-STATE] every use of self.<attr> in the encoder is classified (read / write / not visible): bound in __init__ and only read is configuration, written and read after construction is state between messages (violation), anything else is undecided. When the encode_number residual is not of the piecewise form it is decided on points (tick counts around every boundary, None): ENC-RANGE / SENT-AGREE / SIGN-AGREE then rest on sampled points. An encode_time call site that was not read and a payload assembled by a loop the guard extractor only approximates give no verdict.'
     ' Seventh round: ENC-MISSING runs its histories in one module environment and asks a second message of the same PGN whose fields are ordered differently (a position remembered per PGN number fails).'
     ' Eighth round: see C02 for newly encodable field types.'
